@@ -73,6 +73,7 @@ def run(ctx: Context) -> None:
     rep.rule("C16.R1", "timeout argument of every network operation call site has root request.extensions.get('timeout', {}).get(K, None) with K matching the operation kind; none missing")
     rep.rule("C16.R2", "pool wait sites take the 'pool' key; defaults are None/absent")
     rep.rule("C16.R3", "each backend method applies its timeout parameter to the blocking call")
+    rep.rule("C16.R4", "the caller's extensions / timeout mapping is never modified (no mutation through request.extensions or through values nested in a shallow copy of it)")
     prog = ctx.prog
     for tree, N in trees(ctx):
         funcs = N.functions()
@@ -110,6 +111,7 @@ def run(ctx: Context) -> None:
         _check_arg(ctx, "C16.R1", "shared", s.owner, s.node, callee, {NET_OPS[op]}, op, NET_OPS[op])
         n += 1
     rep.floor("C16.R1", "pass-through sites in _backends/auto.py", n, 2)
+    _readonly_extensions(ctx)
     _backends(ctx)
     rep.assume("an absent / None timeout means unlimited in anyio.fail_after, trio.fail_after(inf), socket.settimeout (library semantics)")
 
@@ -201,3 +203,70 @@ def _bounded(ctx: Context, f: FuncInfo, cfg, b: ast.AST) -> tuple[bool, str]:
         if wrong:
             return False, f"`{ast.unparse(wrong[0][1])}` does not apply the timeout parameter"
     return False, f"blocking call `{ast.unparse(call)[:70]}` is not bounded by the `timeout` parameter"
+
+
+MUTATORS = {"update", "pop", "popitem", "clear", "setdefault", "__setitem__", "__delitem__", "append", "extend", "insert", "remove"}
+NESTED_ACCESS = (".get(", ".setdefault(", "[")
+
+
+def _alias_kind(term: str) -> str | None:
+    """'direct' = the caller's extensions mapping itself, 'nested' = an object stored inside it (also reachable through a
+    shallow copy), None = unrelated / a private copy."""
+    if "request.extensions" not in term and "self._request.extensions" not in term:
+        return None
+    t = term
+    if t in ("request.extensions", "self._request.extensions", "pool_request.request.extensions"):
+        return "direct"
+    # peel one outer nested access: X.get(..) / X.setdefault(..) / X[..]
+    import re as _re
+
+    m = _re.match(r"^(?P<base>.*)\.(get|setdefault)\((?P<args>.*)\)$", t) or _re.match(r"^(?P<base>.*)\[(?P<args>[^\]]*)\]$", t)
+    if m:
+        base = m.group("base")
+        if base in ("request.extensions", "self._request.extensions"):
+            return "nested"
+        # through a shallow copy the nested objects are still the caller's
+        if _re.match(r"^(dict\(request\.extensions\)|request\.extensions\.copy\(\)|\{\*\*request\.extensions.*\})$", base):
+            return "nested"
+        k = _alias_kind(base)
+        if k in ("nested", "direct"):
+            return "nested"
+    return None
+
+
+def _readonly_extensions(ctx: Context) -> None:
+    rep = ctx.rep
+    checked = 0
+    for tree, N in trees(ctx):
+        for f in N.functions():
+            if "request" not in f.param_names() and not (f.cls is not None and "_request" in {a.attr for a in ast.walk(f.node) if isinstance(a, ast.Attribute)}):
+                continue
+            for n in own_nodes(f.node):
+                recv = None
+                what = ""
+                if isinstance(n, ast.Call) and isinstance(n.func, ast.Attribute) and n.func.attr in MUTATORS:
+                    recv, what = n.func.value, f".{n.func.attr}()"
+                elif isinstance(n, ast.Subscript) and isinstance(n.ctx, (ast.Store, ast.Del)):
+                    recv, what = n.value, "[...] ="
+                if recv is None:
+                    continue
+                txt = norm(recv)
+                if "extensions" not in txt and not any(isinstance(x, ast.Name) for x in ast.walk(recv)):
+                    continue
+                kinds = set()
+                for alt in ctx.prov.expand(recv, f, n):
+                    k = _alias_kind(norm(alt))
+                    # `.setdefault(k, default)` on a private shallow copy returns the CALLER's nested object when the key exists
+                    if k is None and isinstance(n, ast.Call) and n.func.attr == "setdefault":
+                        continue
+                    if k:
+                        kinds.add(k)
+                if not kinds:
+                    continue
+                checked += 1
+                rep.ob("C16.R4", fkey(tree, f, f"mutates-caller-extensions:{norm(n)[:60]}"), False, where(f, n),
+                       f"`{ast.unparse(n)[:80]}` modifies {'the caller-supplied extensions mapping' if 'direct' in kinds else 'an object nested in the caller-supplied extensions (a shallow copy shares it)'}: "
+                       "the timeouts the caller configured are rewritten for the rest of this request and for every later request that reuses the mapping")
+    rep.stat("extension_mutation_sites", checked)
+    if not checked:
+        rep.ob("C16.R4", "both|*|extensions-read-only", True, "httpcore/", "no code path modifies request.extensions or an object nested in it")
